@@ -188,6 +188,8 @@ class Interp:
         self.calls_made = []          # (callee qualname, line)
         self.contract_calls = []      # (callee qualname, bound args, result)
         self._loop_ord = {}
+        self.frame_ok = set()         # ids of non-owned objects the contract allows the function to mutate
+        self.module_objs = {}
         self.global_state = {}        # (module, name) -> Value  (module-level mutable state)
         self.birth = {}               # id(obj) -> acc depth at creation
         self.yield_targets = []
@@ -255,12 +257,19 @@ class Interp:
         if name in module.classes:
             return VFunc("class", f"{module.name}.{name}", node=module.classes[name], data={"module": module})
         if name in module.constants:
+            if key in self.module_objs:
+                return self.module_objs[key]
             env = Env(module)
             save = self.spec_mode
             try:
                 v = self.ev(module.constants[name], env)
             finally:
                 self.spec_mode = save
+            if isinstance(v, Value) and v.mutable:
+                # module-level mutable state: one shared object, NOT owned by any call
+                self.birth.pop(id(v), None)
+                v.frame_name = f"module state {module.name.split('.')[-1]}.{name}"
+                self.module_objs[key] = v
             return v
         if name in module.imports:
             return self.import_value(module.imports[name])
@@ -1514,8 +1523,25 @@ class Interp:
 
     def check_mutable_target(self, obj, node, what=""):
         """Inside an R-acc frame, only objects born inside the frame may be mutated in place."""
+        self.frame_check(obj, node, what)
         if self.ctx.acc_frames and self.birth_depth(obj) < len(self.ctx.acc_frames):
             self.unsupported(node, f"state-carrying mutation{what} inside an accumulation loop (needs an invariant)")
+
+    def frame_check(self, obj, node, what=""):
+        """R-frame: an in-place mutation must target an object created by this call (or one the contract lists under
+        `modifies`, or a field of self inside a constructor); anything else is reachable from a parameter, a default
+        argument or module state and belongs to the caller."""
+        if self.spec_mode or not isinstance(obj, Value) or not obj.mutable:
+            return
+        if id(obj) in self.birth or id(obj) in self.frame_ok:
+            return
+        org = getattr(obj, "dict_origin", None)
+        if org is not None and (id(org[0]) in self.birth or id(org[0]) in self.frame_ok):
+            return
+        short = (self.current_qualname or "").replace("pyrepseq.", "")
+        name = getattr(obj, "frame_name", None) or type(obj).__name__
+        self.ctx.oblige(f"{short}/frame[{name}{what} mutated @L{getattr(node, 'lineno', '?')}]", z3.BoolVal(False),
+                        kind="frame", line=getattr(node, "lineno", None))
 
     def setitem(self, base, idx, v, node):
         if isinstance(base, VDict):
@@ -1547,6 +1573,7 @@ class Interp:
         return self.v_ite(cond, a, b)
 
     def dict_setitem(self, d, k, v, node):
+        self.frame_check(d, node, "[...] =")
         if self.ctx.acc_frames and self.birth_depth(d) < len(self.ctx.acc_frames):
             # emit into an outer dict: only sound as a comprehension when keys are distinct per emit;
             # recorded as a site of (key, value) pairs
@@ -1651,6 +1678,7 @@ class Interp:
     def mutate_append(self, lst, v, node):
         if not isinstance(lst, VList):
             self.unsupported(node, f"append on {lst!r}")
+        self.frame_check(lst, node, ".append")
         if self.ctx.acc_frames and self.birth_depth(lst) < len(self.ctx.acc_frames):
             self.emit(lst, v, node)
             return
@@ -1695,6 +1723,7 @@ class Interp:
     def mutate_add(self, st, v, node):
         if not isinstance(st, VSet):
             self.unsupported(node, f"add on {st!r}")
+        self.frame_check(st, node, ".add")
         if self.ctx.acc_frames and self.birth_depth(st) < len(self.ctx.acc_frames):
             self.emit(st, v, node)
             return
